@@ -402,6 +402,9 @@ def run(ctx):
 
 
 MUTANTS = [
+    dict(rule='C12.play', name='a negative phase is wrapped for the rounding but added raw: the grid time lies before the reference beat (seed C05-i)', file='sc3/base/clock.py',
+         old="        if phase < 0:\n            phase = bi.mod(phase, quant)\n\n        return bi.roundup(\n            refbeat - self._base_bar_beat - bi.mod(phase, quant),\n            quant\n        ) + self._base_bar_beat + phase",
+         new="        offset = bi.mod(phase, quant)\n\n        return bi.roundup(\n            refbeat - self._base_bar_beat - offset, quant\n        ) + self._base_bar_beat + phase"),
     dict(rule='C12.affine', name='sched from a task of the clock starts from the cached beat (seed C10-h)', file='sc3/base/clock.py',
          old="        seconds = _libsc3.main.current_tt._seconds\n        beats = self.secs2beats(seconds)\n        return beats + delta",
          new="        if _libsc3.main.current_tt._clock is self:\n            beats = self._beats\n        else:\n            beats = self.secs2beats(_libsc3.main.current_tt._seconds)\n        return beats + delta"),
